@@ -32,7 +32,7 @@ ASSUMPTIONS = [
     "a 20 s alarm per case reports 'inconclusive' (counted), never a violation",
 ]
 BUDGET = {"quick": (16, 600), "thorough": (16, 15000)}
-N_MUT = 26
+N_MUT = 27
 
 
 def strategy(tier, phase):
@@ -267,6 +267,26 @@ def mutate(mp, muts):
                             hit += 1
                 if not hit:
                     continue
+            elif kind == 26 and nodes:  # a subgraph lists as its output / input / initializer a name defined in an enclosing graph
+                subs = [(at.g, g) for n, g in nodes for at in n.attribute if at.type == onnx.AttributeProto.GRAPH and at.HasField("g")]
+                subs += [(sg, g) for n, g in nodes for at in n.attribute for sg in at.graphs]
+                if not subs:
+                    continue
+                sg, outer = subs[a % len(subs)]
+                outer_names = [o for n in getattr(outer, "node", []) for o in n.output if o] + [i.name for i in getattr(outer, "input", []) if i.name]
+                outer_names += [t.name for t in getattr(outer, "initializer", []) if t.name]
+                if not outer_names:
+                    continue
+                nm = outer_names[b % len(outer_names)]
+                how = (a + b) % 4
+                if how == 0 and sg.output:
+                    sg.output[0].name = nm
+                elif how == 1:
+                    sg.output.add(name=nm)
+                elif how == 2:
+                    sg.input.add(name=nm)
+                else:
+                    sg.initializer.add(name=nm, data_type=1, dims=[1], float_data=[1.0])
             else:
                 continue
             applied += 1
